@@ -539,15 +539,16 @@ func (c *connection) TCPUp(conn net.Conn) {
 
 // TCPDown is called by the transport when the TCP connection is lost (TransportRuntime). Any
 // TCPDown is an INVOLUNTARY drop, so it marks the current generation commsFailure=true (the
-// NotConnected reaction then sends NO farewell Separate — §9.1.1) and injects evDisconnect. A
-// graceful voluntary Close never routes through TCPDown; it funnels through evClose and leaves
-// commsFailure false.
+// NotConnected reaction then sends NO farewell Separate — §9.1.1) and injects evDisconnect, tagged
+// with the supervisor's current TCP generation (injectDisconnect) so that it can only ever disconnect the
+// generation that reported it. A graceful voluntary Close never routes through TCPDown; it funnels
+// through evClose and leaves commsFailure false.
 func (c *connection) TCPDown(cause error) {
 	if e := c.cur.Load(); e != nil {
 		e.commsFailure.Store(true)
 	}
 
 	if s := c.sup.Load(); s != nil {
-		s.inject(evDisconnect)
+		s.injectDisconnect()
 	}
 }
